@@ -5,8 +5,11 @@ package configs
 import (
 	"errors"
 	"fmt"
+	"os"
+	"path/filepath"
 	"regexp"
 	"strings"
+	"sync"
 
 	"github.com/nginx/kubernetes-ingress/internal/k8s/secrets"
 	conf_v1 "github.com/nginx/kubernetes-ingress/pkg/apis/configuration/v1"
@@ -67,13 +70,45 @@ func verifFcPolicy(kind, mode string, ex *VirtualServerEx) *conf_v1.Policy {
 		p.Spec.APIKey = &conf_v1.APIKey{SuppliedIn: &conf_v1.SuppliedIn{Header: []string{"X-Key"}}, ClientSecret: "ak"}
 		sec("ak", secrets.SecretTypeAPIKey, first)
 	case "waf":
-		p.Spec.WAF = &conf_v1.WAF{Enable: true, ApPolicy: "d/ap", SecurityLogs: []*conf_v1.SecurityLog{{Enable: true, ApLogConf: "d/lc", LogDest: "stderr"}}}
-		if mode != "ap-missing" {
-			ex.ApPolRefs["d/ap"] = &unstructured.Unstructured{Object: map[string]interface{}{"metadata": map[string]interface{}{"namespace": "d", "name": "ap"}}}
+		// variant: p = App Protect policy, b = App Protect bundle (a file under AppProtectBundlePath); then the security logs:
+		// l = log configuration resource, g = log bundle file, o = the deprecated single securityLog field (with a log configuration)
+		variant := verifWafVariant
+		if variant == "" {
+			variant = "pl"
 		}
-		if mode != "aplog-missing" {
-			ex.LogConfRefs["d/lc"] = &unstructured.Unstructured{Object: map[string]interface{}{"metadata": map[string]interface{}{"namespace": "d", "name": "lc"}}}
+		w := &conf_v1.WAF{Enable: true}
+		for i, c := range variant {
+			switch c {
+			case 'p':
+				w.ApPolicy = "d/ap"
+				if mode != "ap-missing" {
+					ex.ApPolRefs["d/ap"] = &unstructured.Unstructured{Object: map[string]interface{}{"metadata": map[string]interface{}{"namespace": "d", "name": "ap"}}}
+				}
+			case 'b':
+				w.ApBundle = "pol.tgz"
+				if mode == "bundle-missing" {
+					w.ApBundle = "absent-pol.tgz"
+				}
+			case 'l':
+				name := fmt.Sprintf("d/lc%d", i)
+				w.SecurityLogs = append(w.SecurityLogs, &conf_v1.SecurityLog{Enable: true, ApLogConf: name, LogDest: "stderr"})
+				if mode != "aplog-missing" {
+					ex.LogConfRefs[name] = &unstructured.Unstructured{Object: map[string]interface{}{"metadata": map[string]interface{}{"namespace": "d", "name": name[2:]}}}
+				}
+			case 'g':
+				b := "log.tgz"
+				if mode == "logbundle-missing" {
+					b = "absent-log.tgz"
+				}
+				w.SecurityLogs = append(w.SecurityLogs, &conf_v1.SecurityLog{Enable: true, ApLogBundle: b, LogDest: "stderr"})
+			case 'o':
+				w.SecurityLog = &conf_v1.SecurityLog{Enable: true, ApLogConf: "d/lco", LogDest: "stderr"}
+				if mode != "aplog-missing" {
+					ex.LogConfRefs["d/lco"] = &unstructured.Unstructured{Object: map[string]interface{}{"metadata": map[string]interface{}{"namespace": "d", "name": "lco"}}}
+				}
+			}
 		}
+		p.Spec.WAF = w
 	case "rl":
 		p.Spec.RateLimit = &conf_v1.RateLimit{Rate: "10r/s", ZoneSize: "10M", Key: "${binary_remote_addr}"}
 	case "acl":
@@ -118,6 +153,30 @@ func verifBlocks(content string) (serverLevel string, locations map[string]strin
 	return srv.String(), locations
 }
 
+// verifWafVariant selects the shape of the WAF policy under test (set per case by VerifFailClosed; the harness is single-threaded).
+var verifWafVariant string
+
+var (
+	verifBundleOnce sync.Once
+	verifBundlePath string
+)
+
+// verifBundleDir is the App Protect bundle folder of the harness' Configurators: a fresh directory holding the two bundles
+// that exist (pol.tgz, log.tgz); any other bundle name is "missing on disk".
+func verifBundleDir() string {
+	verifBundleOnce.Do(func() {
+		d, err := os.MkdirTemp("", "verif-bundles-")
+		if err != nil {
+			return
+		}
+		for _, f := range []string{"pol.tgz", "log.tgz"} {
+			_ = os.WriteFile(filepath.Join(d, f), []byte("bundle"), 0o600)
+		}
+		verifBundlePath = d
+	})
+	return verifBundlePath
+}
+
 var verifReturn5xx = regexp.MustCompile(`(?m)^return 5\d\d;`)
 
 // VerifFailClosed renders a VirtualServer whose scope under test references the policy of the given kind in the given failure
@@ -142,6 +201,7 @@ func VerifFailClosed(kv map[string]string) string {
 	// TLS so that ingressMTLS is admissible in the spec
 	vs.Spec.TLS = &conf_v1.TLS{Secret: "tls"}
 	ex.SecretRefs["d/tls"] = &secrets.SecretReference{Secret: &api_v1.Secret{Type: api_v1.SecretTypeTLS}, Path: "/etc/nginx/secrets/d-tls"}
+	verifWafVariant = kv["waf"]
 	target := verifFcPolicy(kv["kind"], kv["mode"], ex)
 	if kv["mode"] != "policy-missing" {
 		ex.Policies["d/target"] = target
